@@ -171,7 +171,7 @@ def Phase.name : Phase → String
   | .heating => "heating_running" | .heatDelay => "heating_delay"
 
 /-- One input event.  `tick j0 j1 j2`: the armed timer fires `j0` after it is due (and not before the last
-handler); the messages the handler sends to itself (a trigger, or `reload` then `eco`) are handled `j1`, `j2`
+handler); the messages the handler sends to itself (a trigger, or `reload` then `reloaded`) are handled `j1`, `j2`
 later.  `heat dt` / `heatEnd dt`: the Heating actor asks `heat` / tells `heating_delay` `dt` after the last handler. -/
 inductive Ev
   | tick (j0 j1 j2 : Int)
@@ -287,7 +287,8 @@ def enterTank (s : Loop) (eps : Int) : Loop × Rec :=
                      gJ := s.gJ + 2 * eps, gU := s.gU + 2 * eps }
   (s1, s1.mkRec "eco_tank" none)
 
-/-- `__reload_eco`: `reload` handled `j1` later (state change: timers cleared), `eco` `j2` after that. -/
+/-- `__reload_eco`: `reload` handled `j1` later (state change to reload_eco: timers cleared), then `reloaded` (sent by
+on_enter_reload; back to eco, i.e. eco_compute) `j2` after that. -/
 def reloadEco (s : Loop) (eps j1 j2 : Int) : Loop × List Rec :=
   let s1 := s.advance (s.now + j1)
   let s1 := { s1 with eco := s1.eco.clear, gU := s1.gU + 2 * eps }
